@@ -485,6 +485,7 @@ def run(cfg, ops=None, rng=None):
                     world.begin_op({"persist": [[None, None, "SimRuntime"]]})
                     ACTIVE[0] = world
                     res.bump("snapshots_of_read_only_trees")
+                    res.bump("fault_persist_read_only_snapshot")
                 try:
                     try:
                         data, centry = take_snapshot(world.nodes[entry], op["method"])
@@ -562,6 +563,9 @@ def run(cfg, ops=None, rng=None):
             res.bump("ops")
             res.bump("ops_on_copy" if side == "B" else "ops_on_original")
             fired = w.fired
+            for f in fired:
+                res.bump("fault_" + f[4])
+                res.bump("fault@" + f[1])
             newidx = None
             if kind == "new":
                 newidx = m.add(FAMILY[op["cls"]])
